@@ -18,7 +18,8 @@ R15.3  leaves are yielded in the order of the tree with their own scripts
 R15.4  BitStack128 is a LIFO of bits up to 128 entries
 R15.5  parsing / printing keep leaves, order and depths (TapTreeBuilder and TapTree Display; rule shared with C10)
 R15.6  TapTree::translate_pk keeps depths and order
-R15.7  TapTree::combine puts both subtrees one level deeper, in order, and fails exactly beyond depth 128"""
+R15.7  TapTree::combine puts both subtrees one level deeper, in order, and fails exactly beyond depth 128
+R15.8  TrSpendInfo::to_tap_tree passes exactly the leaves (depth, script, version, order) on; None only without a tree"""
 
 import itertools
 import os
@@ -292,6 +293,64 @@ def run(chk):
                 chk.fail("R15.7", "unanalysable:" + key, "unanalysable: %s" % e, where=e.where, kind="unanalysable")
                 break
         chk.floor("R15.7", "depth-list pairs", n7, 140)
+    # R15.8 TrSpendInfo::to_tap_tree (what a PSBT output carries)
+    chk.rule("R15.8", "TrSpendInfo::to_tap_tree hands rust-bitcoin's builder exactly the leaves of the tree - each with its own "
+                      "depth, script and the tapscript leaf version, in tree order - and is None exactly for a key-only output")
+    ttt = [p_ for p_ in F.fns if p_.endswith("TrSpendInfo::<Pk>::to_tap_tree")]
+    if len(ttt) != 1:
+        chk.fail("R15.8", "anchor", "TrSpendInfo::to_tap_tree not found", kind="unanalysable")
+    else:
+        chk.saw(ttt[0])
+        from ..builtins import deref
+        m5 = machine(F)
+        h5 = m5.hooks
+        h5["bitcoin::taproot::TaprootBuilder::new"] = lambda m_, a, c: PyVec([])
+        h5["bitcoin::taproot::TaprootBuilder::add_leaf_with_ver"] = lambda m_, a, c: ok(PyVec(list(deref(a[0]).items) + [(deref(a[1]), deref(a[2]), repr(deref(a[3])))]))
+        h5["bitcoin::taproot::TaprootBuilder::add_leaf"] = lambda m_, a, c: ok(PyVec(list(deref(a[0]).items) + [(deref(a[1]), deref(a[2]), "LeafVersion::TapScript")]))
+        for nm in ("<bitcoin::taproot::TapTree as std::convert::TryFrom<bitcoin::taproot::TaprootBuilder>>::try_from",
+                   "bitcoin::taproot::TapTree::try_from"):
+            h5[nm] = lambda m_, a, c: ok(("taptree", list(deref(a[0]).items)))
+        h5["<bitcoin::ScriptBuf as std::convert::From<&bitcoin::Script>>::from"] = lambda m_, a, c: deref(a[0])
+        h5["bitcoin::script::<impl std::convert::From<&'a bitcoin::Script> for bitcoin::ScriptBuf>::from"] = lambda m_, a, c: deref(a[0])
+        from .. import builtins as B5
+        orig5 = B5.TRAIT_TABLE.get(("std::convert::TryFrom", "try_from"))
+
+        def tf5(m_, a, c):
+            st = " ".join([c.get("self_ty") or ""] + (c.get("targs") or []))
+            if "TaprootMerkleBranch" in st:
+                r_ = _try_from_hook(m_, a, c)
+                if r_ is not None:
+                    return r_
+            if "TapTree" in st and isinstance(deref(a[0]), PyVec):
+                return ok(("taptree", list(deref(a[0]).items)))
+            return orig5(m_, a, c) if orig5 else B5.NOT_HANDLED
+        B5.TRAIT_TABLE[("std::convert::TryFrom", "try_from")] = tf5
+        from_tr5 = F.fn("from_tr", file="tr/spend_info.rs")
+        try:
+            n8 = 0
+            for text in [None, "A", "{A,B}", "{A,{B,C}}", "{{A,B},C}", "{{A,B},{C,D}}", "{A,{B,{C,{D,E}}}}"]:
+                key = "to_tap_tree|%s" % text
+                n8 += 1
+                try:
+                    tr = Adt(TR, "Tr", {"internal_key": "IK", "tree": some(mk_tree(text)) if text else NONE, "spend_info": Term("cache")})
+                    si = m5.call_callee({"def": from_tr5, "resolved": from_tr5, "name": "from_tr", "targs": ["PK"]}, [tr])
+                    r = m5.call_callee({"def": ttt[0], "resolved": ttt[0], "name": "to_tap_tree", "targs": ["PK"]}, [si])
+                    if text is None:
+                        chk.obligation("R15.8", r.variant == "None", key, "a key-only output yields %r" % (r,), where="src/descriptor/tr/spend_info.rs")
+                        continue
+                    _root, leaves_ = spec_tree(parse_braces(text))
+                    want = [(d, ("script", nm), "LeafVersion::TapScript") for nm, d, _p in leaves_]
+                    got = deref(r.fields["0"])[1] if r.variant == "Some" else None
+                    good = got is not None and [(g[0], g[1], "LeafVersion::TapScript" if "TapScript" in g[2] else g[2]) for g in got] == want
+                    chk.obligation("R15.8", good, key, "to_tap_tree gives %r, the tree has the leaves %r" % (got, want),
+                                   where="src/descriptor/tr/spend_info.rs")
+                except Unsupported as e:
+                    chk.fail("R15.8", "unanalysable:" + key, "unanalysable: %s" % e, where=e.where, kind="unanalysable")
+                    break
+                except Panic as e:
+                    chk.fail("R15.8", key, "panic: %s" % e, where="src/descriptor/tr/spend_info.rs")
+        finally:
+            B5.TRAIT_TABLE[("std::convert::TryFrom", "try_from")] = orig5
     # R15.4 BitStack128
     chk.rule("R15.4", "BitStack128: pop returns pushed bits in reverse order, None when empty, for sequences up to 128 bits")
     bs = [a for a in F.adts if a.endswith("BitStack128")]
